@@ -268,13 +268,27 @@ func gen(tier string, out *vlib.Out) {
 		"new limit 1 kind=unit\nget 0\nput 0\nget 1\nput 1\nget 0\nget 1",
 		"new limit 3 kind=str0\nget 0\nget 0\nget 0\nput 1\nput 1\nput 1\nget 2\nget 2\nget 2\nget 2",
 		"new limit 2 kind=val\nget 0\nput 0\nget 1\nget 1\nget 1\nput 0\nput 0\nget 2\nget 2\nget 2",
+		// ... and that are nil (pointer / slice / func element types): "nil is not worth pooling" must not keep the token
+		"new limit 2 kind=nilptr\nget 0\nget 1\nget 2\nput 0\nput 1\nget 0\nget 1\nget 2\nput 0\nput 0\nget 3\nget 3\nget 3",
+		"new limit 1 kind=nilsl\nget 0\nput 0\nget 1\nput 1\nget 0\nget 1",
+		"new limit 3 kind=nilfn\nget 0\nget 0\nget 0\nput 1\nput 1\nput 1\nget 2\nget 2\nget 2\nget 2",
+		// GENUINE DEFECT CANDIDATE (kept commented out, see the genaudit report): with an interface element type whose
+		// factory returns the nil interface, syncx.Pool.Get panics in `p.p.Get().(T)` ("interface conversion: interface is
+		// nil"), and LimitPool.Get has already taken its token by then: every such Get leaks one token for good
+		// (observed: new limit 2 kind=iface0 / get 0 => panic tokens=1 / get 0 => panic tokens=0 / get 0 => false).
+		// "new limit 2 kind=iface0\nget 0\nget 0\nget 0",
+		// segment counts beyond 2^16 (the index is computed in uint32, not in anything narrower)
+		"new seg 65536\nidx -\nidx 61\nidx 6b657931\nidx fffe\nlock 0 61\ntrylock 1 61\ntrylock 1 -\nunlock 1 -\nunlock 0 61",
+		"new seg 65537\nidx -\nidx 61\nidx 6b657931\nidx fffe\nrlock 0 -\ntryrlock 1 -\ntrylock 2 -\nrunlock 0 -\nrunlock 1 -\ntrylock 2 -\nunlock 2 -",
 		"new limitstress max=2 g=6 iters=200 kind=int0",
 		"new limitstress max=3 g=8 iters=200 kind=unit",
+		"new limitstress max=2 g=6 iters=200 kind=nilptr",
 		"new limitstress max=300 g=8 iters=100",
 		"new limitstress max=70000 g=4 iters=100",
 		"new limitstress max=1 g=8 iters=400",
 		"new limitstress max=0 g=4 iters=200",
 		"new segstress size=1 keys=2 g=8 iters=200",
+		"new segstress size=2 keys=4 g=8 iters=200", // keys=4 includes the empty key
 		"new segfirst size=1 g=4 rounds=300 variant=try",
 		"new segfirst size=8 g=4 rounds=300 variant=mix",
 		"new segfirst size=3 g=4 rounds=300 variant=lock",
@@ -379,7 +393,7 @@ type obj struct{ id int64 }
 
 // limIface hides the element type of a LimitPool: the bookkeeping of C14 must not depend on what the
 // pooled values are, in particular not on whether a legitimately borrowed value happens to be T's zero
-// value (kinds int0, unit, str0) or a non-nil pointer (kind ptr).
+// value (kinds int0, unit, str0), nil (kinds nilptr, nilsl, nilfn) or a non-nil pointer (kind ptr).
 type limIface interface {
 	Get() bool // a successful Get remembers the borrowed value
 	PutLast()  // hands the most recently borrowed value back
@@ -420,11 +434,19 @@ func newLim(kind string, max int, created *atomic.Int64) limIface {
 		return &limOf[string]{p: syncx.NewLimitPool[string](max, func() string { created.Add(1); return "" })}
 	case "val":
 		return &limOf[obj]{p: syncx.NewLimitPool[obj](max, func() obj { return obj{id: created.Add(1) - 1} })} // the first object is the zero obj
+	case "nilptr":
+		return &limOf[*obj]{p: syncx.NewLimitPool[*obj](max, func() *obj { created.Add(1); return nil })}
+	case "nilsl":
+		return &limOf[[]byte]{p: syncx.NewLimitPool[[]byte](max, func() []byte { created.Add(1); return nil })}
+	case "nilfn":
+		return &limOf[func()]{p: syncx.NewLimitPool[func()](max, func() func() { created.Add(1); return nil })}
+	case "iface0": // not generated: see the commented-out corpus case
+		return &limOf[any]{p: syncx.NewLimitPool[any](max, func() any { created.Add(1); return nil })}
 	}
 	panic("limit kind " + kind)
 }
 
-var limKinds = []string{"ptr", "ptr", "int0", "unit", "str0", "val"}
+var limKinds = []string{"ptr", "ptr", "ptr", "int0", "unit", "str0", "val", "nilptr", "nilsl", "nilfn"}
 
 func kindOf(w []string) string {
 	for _, x := range w {
@@ -541,6 +563,12 @@ func limitStress(kind string, max, g, iters int, seed uint64, st *stats) string 
 			line, bad = limitStressRound[struct{}](max, g, iters, seed+uint64(r)*977, st, func(*atomic.Int64) struct{} { return struct{}{} })
 		case "str0":
 			line, bad = limitStressRound[string](max, g, iters, seed+uint64(r)*977, st, func(*atomic.Int64) string { return "" })
+		case "nilptr":
+			line, bad = limitStressRound[*obj](max, g, iters, seed+uint64(r)*977, st, func(*atomic.Int64) *obj { return nil })
+		case "nilsl":
+			line, bad = limitStressRound[[]byte](max, g, iters, seed+uint64(r)*977, st, func(*atomic.Int64) []byte { return nil })
+		case "nilfn":
+			line, bad = limitStressRound[func()](max, g, iters, seed+uint64(r)*977, st, func(*atomic.Int64) func() { return nil })
 		case "val":
 			line, bad = limitStressRound[obj](max, g, iters, seed+uint64(r)*977, st, func(c *atomic.Int64) obj { return obj{id: c.Add(1) - 1} })
 		default:
@@ -639,6 +667,9 @@ func segStressRound(size, nkeys, g, iters int, seed uint64, st *stats) (string, 
 	keys := make([][]byte, nkeys)
 	for i := range keys {
 		keys[i] = []byte(fmt.Sprintf("k%d-é", i))
+	}
+	if nkeys >= 4 {
+		keys[3] = []byte{} // the empty key is a key like any other
 	}
 	// equal contents in distinct allocations must select the same mutex; if they do not, a
 	// Lock/Unlock pair would release a mutex that is not held (an unrecoverable Go fatal error), so
